@@ -28,6 +28,7 @@ type RaceCase struct {
 	Init    []Op      `json:"init,omitempty"`
 	Clients [][]Op    `json:"clients"`
 	Pool    *PoolCase `json:"pool,omitempty"`
+	Reopen  bool      `json:"reopen,omitempty"` // close and open the database again after Init, before the clients start
 }
 
 type propC15 struct{}
@@ -143,6 +144,24 @@ func (propC15) Gen(r *simrt.Rand, idx int, tier string) any {
 			o.Writes = splitWrites(r, o.Size)
 			c.Clients = append(c.Clients, []Op{o, {K: "get", Key: o.Key}})
 		}
+	case 7:
+		if idx%16 == 7 {
+			// an existing database is opened again while its own background work (the periodic
+			// collector above all, with a period of microseconds) is already running: start-up against
+			// the collector, then a few client operations
+			c.Kind = "reopen"
+			c.Reopen = true
+			for k := 0; k < 4+r.Intn(20); k++ {
+				c.Init = append(c.Init, newSet(0, key()))
+			}
+			c.World.GCPeriodNs = c.World.SendDurNs
+			c.Sched.Strategy, c.Sched.TimerProb, c.Sched.Bias = "uniform", []float64{0.05, 0.2, 0.5}[r.Intn(3)], []float64{0, 0.5, 0.9}[r.Intn(3)]
+			for ci := 0; ci < 2; ci++ {
+				c.Clients = append(c.Clients, []Op{newSet(0, key()), {K: "get", Key: key()}, {K: "keys"}})
+			}
+			break
+		}
+		fallthrough
 	default:
 		c.Kind = "pool"
 		pc := (propC16{}).Gen(r, idx*3+1, tier).(PoolCase) // normal / seqlife programs (index chosen off the liferace residue)
@@ -350,6 +369,16 @@ func (propC15) Exec(x any, choices []int32) RunOut {
 			init := &actors{db: w.DB, txs: map[int]fs_db.Tx{}}
 			for _, o := range c.Init {
 				init.apply(w.Ctx, o)
+			}
+			if c.Reopen {
+				if err := w.Close(); err != nil {
+					infra = "close: " + err.Error()
+					return
+				}
+				if err := w.Open(); err != nil {
+					infra = "reopen: " + err.Error()
+					return
+				}
 			}
 			var wg simrt.WaitGroup
 			for i, ops := range c.Clients {
